@@ -7,7 +7,7 @@ from ..core import Report
 from ..eqterms import equal, explain
 from ..model import BIJ, DIST, TRANSFORMED, Program
 from ..refs import eval_ref_function, eval_ref_method, prelude
-from ..terms import C, Env, FOUR, Interp, find_unknown, has_unknown, key, same, show, walk
+from ..terms import C, Env, FOUR, Interp, find_unknown, has_unknown, key, same, show, walk, subst
 from .bij import SELF, bijection_classes, method_site
 from .c07 import compare
 from .lints import rule_truthy
@@ -153,6 +153,9 @@ def run(prog: Program, rep: Report, tier: str):
     rule_hook(prog, rep)
     rule_exact(prog, rep)
     rule_ctor(prog, rep)
+    # TriangularAffine documents loc as broadcastable to (dim,): jnp.broadcast_to in the constructor is what rejects others
+    from .c07 import rule_tri
+    rule_tri(prog, rep, R="C13.tri")
     # the validators see the arguments as given
     from .c08 import rule_new_constructors
     rule_new_constructors(prog, rep, "C13.ctor")
@@ -369,6 +372,82 @@ CTOR_CALLS = {  # constructor -> validators that must be called on (a term built
 TRANSFORMER_GUARDS = ["flowjax.bijections.coupling.Coupling", "flowjax.bijections.masked_autoregressive.MaskedAutoregressive"]
 
 
+def _bind_new_params_from_call_site(prog, c, mname, gi):
+    """A validator that gained a parameter (analysed as the free symbol NEW_<P>) receives, at its single call site in the
+    class, a value the caller computed: express that value over the validator's own parameters and the object's fields
+    and substitute it into the recorded guards, so the guards are compared as the caller makes them behave."""
+    r = prog.find_method(c, mname)
+    if r is None:
+        return
+    owner, fn = r
+    new = prog.new_passed_params(f"{owner.qualname}.{mname}", fn)
+    if not new:
+        return
+    sites = []
+    for caller_name, caller in c.methods.items():
+        for n in ast.walk(caller):
+            if isinstance(n, ast.Call) and isinstance(n.func, ast.Attribute) and n.func.attr == mname and \
+                    isinstance(n.func.value, ast.Name) and n.func.value.id == "self":
+                sites.append((caller_name, caller, n))
+    if len(sites) != 1:
+        return
+    caller_name, caller, node = sites[0]
+    a = caller.args
+    cargs = [("sym", p_.arg.upper()) for p_ in (a.posonlyargs + a.args)[1:]]
+    ckw = {p_.arg: ("sym", p_.arg.upper()) for p_ in a.kwonlyargs}
+    it = Interp(prog, no_inline={f"{c.qualname}.{mname}", f"{owner.qualname}.{mname}"})
+    try:
+        if caller_name == "__init__":
+            fields = it.eval_init(c, cargs, ckw)
+        else:
+            fields = {}
+            it.eval_method(c, caller_name, cargs, ckw)
+    except Exception:  # noqa: BLE001
+        return
+    calls = [s2 for _, e in it.cond_effects for s2 in walk(e)
+             if s2[0] == "call" and s2[1][0] == "attr" and s2[1][2] == mname]
+    calls += [s2 for t in fields.values() for s2 in walk(t) if s2[0] == "call" and s2[1][0] == "attr" and s2[1][2] == mname]
+    if not calls:
+        return
+    call = calls[0]
+    params = [p_.arg for p_ in (fn.args.posonlyargs + fn.args.args)[1:]] + [p_.arg for p_ in fn.args.kwonlyargs]
+    actual = {}
+    for pn, av in zip(params, call[2]):
+        actual[pn] = av
+    for k2, v2 in call[3]:
+        actual[k2] = v2
+    # express caller-side terms over the validator's parameters and the object's fields
+    back_args = [(av, ("sym", pn.upper())) for pn, av in actual.items() if pn not in new]
+    back_fields = [(ft, ("attr", SELF, fname)) for fname, ft in fields.items() if ft[0] == "sym"]
+
+    def rewrite(t):
+        # first the caller's argument expressions (whole terms), then constructor parameters stored as fields
+        for table in (back_args, back_fields):
+            def f(s2, table=table):
+                for src_t, dst in table:
+                    if s2 == src_t:
+                        return dst
+                return None
+            t = subst(t, f)
+        return t
+    repl = {("sym", "NEW_" + pn.upper()): rewrite(actual[pn]) for pn in new if pn in actual}
+    if not repl:
+        return
+
+    def sub_guard(g):
+        out = []
+        for x in g:
+            if isinstance(x, tuple) and x and isinstance(x[0], str):
+                out.append(subst(x, lambda s2: repl.get(s2)))
+            elif isinstance(x, tuple):
+                out.append(tuple(subst(y, lambda s2: repl.get(s2)) if isinstance(y, tuple) and y and isinstance(y[0], str) else y
+                                 for y in x))
+            else:
+                out.append(x)
+        return tuple(out)
+    gi.guards = [sub_guard(g) for g in gi.guards]
+
+
 def rule_ctor(prog, rep):
     rep.rule("C13.ctor", "constructor validation: Chain/Concatenate/Stack call their shape validators and "
                          "merge_cond_shapes on all children; the validators and __check_init__ methods raise on the "
@@ -390,6 +469,7 @@ def rule_ctor(prog, rep):
         gi, wi = Interp(prog), Interp(prog)
         gi.eval_method(c, mname, args)
         wi.apply_def(ast.parse(src).body[0], Env(prelude(prog)), (c.module, c, SELF), [SELF] + args, {})
+        _bind_new_params_from_call_site(prog, c, mname, gi)
         compare_guards(rep, "C13.ctor", method_site(prog, c, mname), f"{c.name}.{mname}", gi, wi, "validator")
     for q, validators in CTOR_CALLS.items():
         c = prog.cls(q)
@@ -439,7 +519,17 @@ def rule_ctor(prog, rep):
     it.eval_init(c, [("sym", "BIJ")], {"in_axes": IA, "axis_size": AS, "in_axes_condition": ("sym", "IAC")})
     gl = guard_list(it)
     both = ("and", (("cmp", "is not", IA, C(None)), ("cmp", "is not", AS, C(None))))
-    rep.check(any(equal(g[0], both) for g in gl), "C13.ctor", method_site(prog, c, "__init__"),
+    def conj_set(g):
+        out = []
+        for x in [g[0]] + list(g[2]):
+            out.extend(x[1] if x[0] == "and" else [x])
+        return out
+
+    def is_both(g):
+        cs = conj_set(g)
+        return len(cs) == 2 and all(any(equal(a, b) for b in both[1]) for a in cs) and all(
+            any(equal(a, b) for a in cs) for b in both[1])
+    rep.check(any(equal(g[0], both) for g in gl) or any(is_both(g) for g in gl), "C13.ctor", method_site(prog, c, "__init__"),
               "Vmap.__init__:rejects-both-in_axes-and-axis_size", "raises when both are given",
               f"no guard on {show(both, 120)}; guards: {[show(g[0], 80) for g in gl][:4]}")
     neither = [g for g in gl if any(s2 == ("cmp", "is", IA, C(None)) for s2 in walk(g[0])) or equal(g[0], ("cmp", "is", IA, C(None)))]
